@@ -199,6 +199,11 @@ func (e *kvElection) heartbeatLoop(ctx context.Context, termToken string) {
 				continue
 			}
 
+			// An answer that arrives after this term has ended (and perhaps a new one
+			// has begun) must not become the revision the new term refreshes against.
+			if !e.IsLeader() || e.Token() != termToken {
+				return
+			}
 			e.revision.Store(newRev)
 			if consecutiveFailures > 0 {
 				consecutiveFailures = 0
